@@ -852,7 +852,8 @@ class Runner:
                     if not [c for c in choices if c[0] == "pup"]:
                         self.unstall()
                         return False
-                    choices.append(("unstall",))
+                    if not self.sc.get("stall_until_idle"):
+                        choices.append(("unstall",))
                 elif getattr(self, "stalls_left", 2) > 0 and [c for c in choices if c[0] == "pup"]:
                     choices.append(("stall",))
             if not choices:
